@@ -20,7 +20,7 @@ func init() {
 			"R07-extword — a word emitted through raw codeStore.Add is not a constant under its own path condition (SETLIST batch number); R07-skipgroup — for every opcode whose handler reads trailing code words, patchCode's scan advances past them (or the opcode is exempt with a reason), and the three definitions of the CLOSURE group length agree; R07-consts — register/constant ceilings fit the operand fields and are enforced with raising arms; R07-ret — an OP_RETURN emission lies on every path between compileChunk and the assignment of Proto.Code; R07-parallel — code and line table are modified in lock-step, sliced with the same bound and assigned together, string-constant table is built after the last possible ConstIndex call; R01-optable/R01-emit/R01-decode shared. " +
 			"R07-regcount — for every opcode whose VM handler stores into R(A+k), patchCode's case for that opcode accounts for at least A+k when it computes NumUsedRegisters (or derives the mark from the operands). R07-width — counts emitted as operands (CALL's B and C, VARARG's B) are compared with the operand width first; codeStore.Last() never hands the data word of an extended SETLIST to the peepholes. NOT decided: that register operands stay below NumUsedRegisters (post-hoc high-water scan; a value argument), that every label is defined before patchCode, that jump targets are instruction boundaries.",
 		Trusted: []string{"codeStore.LastPC() is non-decreasing while one statement is compiled (a numeric for's body length is non-negative)"},
-		Rules:   []func(*Ctx){ruleRegTopOwner, ruleLogicalTailRequested, ruleKmvFlow, ruleNarrow, ruleRk, ruleBx, ruleSbx, ruleExtWord, ruleSkipGroup, ruleRegCount, ruleOperandWidth, ruleConsts, ruleRet, ruleParallel, ruleOptable, ruleEmit, ruleDecode, ruleCompilerDecodes, ruleCaptureWords, ruleFrameCoversParameters, ruleBulkMoveEndsAtTargets},
+		Rules:   []func(*Ctx){rulePeepholePopsOnlyTemporaries, ruleRegTopOwner, ruleLogicalTailRequested, ruleKmvFlow, ruleNarrow, ruleRk, ruleBx, ruleSbx, ruleExtWord, ruleSkipGroup, ruleRegCount, ruleOperandWidth, ruleConsts, ruleRet, ruleParallel, ruleOptable, ruleEmit, ruleDecode, ruleCompilerDecodes, ruleCaptureWords, ruleFrameCoversParameters, ruleBulkMoveEndsAtTargets},
 	})
 }
 
